@@ -13,7 +13,7 @@ import fcntl, hashlib, json, os, shutil, subprocess, sys, time
 
 VERIF = os.environ.get("VERIF_ROOT", "/verif")
 REPO = os.environ.get("VERIF_REPO", "/repo")
-BUILD = os.path.join(VERIF, "build")
+BUILD = os.environ.get("VERIF_BUILD") or os.path.join(VERIF, "build")
 MOD = "github.com/emitter-io/emitter"
 VX = os.path.join(REPO, "internal", "verifx")
 MODCACHE = subprocess.run(["go", "env", "GOMODCACHE"], capture_output=True, text=True,
